@@ -69,7 +69,20 @@ Check (C19_finished_file_header_clauses : (forall b m0 ops m rs s cl,
   cl = 3 \/ cl = 4 \/ cl = 7 \/
   (cl = 10 /\ cfg_codec b = Vp9) \/
   (cl = 11 /\ exists a, cfg_audio b = Some a /\ at_codec a = Opus /\ (at_channels a = 0 \/ 2 < at_channels a)))%type).
-Check (C19_oversized_parameter_set_refuted : (~ header_clauses_claim)%type).
+Check (C19_finished_file_header_clauses_exact_unconditional : (forall b m0 ops m rs s,
+  build b [] = inl m0 -> run m0 ops = (m, rs) -> In (RStats s) rs ->
+  Forall op_payload_ok ops -> len (sink_of m) < 4294967296 ->
+  failed_C19_mux b ops (map class_of rs) (sink_of m) =
+  [3; 4; 7] ++
+  clause 10 (match effective_config (m_writer m) with CfgVp9 _ => false | _ => true end) ++
+  match cfg_audio b with Some a => clause 11 (dops_ok a) | None => [] end)%type).
+Check (C19_finished_file_header_clauses_unconditional : (forall b m0 ops m rs s cl,
+  build b [] = inl m0 -> run m0 ops = (m, rs) -> In (RStats s) rs ->
+  Forall op_payload_ok ops -> len (sink_of m) < 4294967296 ->
+  In cl (failed_C19_mux b ops (map class_of rs) (sink_of m)) ->
+  cl = 3 \/ cl = 4 \/ cl = 7 \/
+  (cl = 10 /\ cfg_codec b = Vp9) \/
+  (cl = 11 /\ exists a, cfg_audio b = Some a /\ at_codec a = Opus /\ (at_channels a = 0 \/ 2 < at_channels a)))%type).
 Check (C19_init_segment_header_clauses_exact : (forall c,
   len (init_segment_bytes c) < 4294967296 ->
   (init_codec_of c = IH264 -> len (fc_sps c) < 65536 /\ len (fc_pps c) < 65536) ->
